@@ -370,6 +370,31 @@ func (w *world) reinstateDone() {
 	w.failedKnown = false
 	w.synced = true
 	w.rrt = nil
+	// When the reinstate left the passive registry incomplete (C27-F4), what later replication does to the missing
+	// records depends on hash-slot placement (C21's matter) and on a goroutine race: report and stop observing.
+	regOf := func(m string) string {
+		i, j := strings.Index(m, " reg="), strings.LastIndex(m, " st=")
+		if i < 0 || j < i {
+			return m
+		}
+		return m[i:j]
+	}
+	f0, f1 := w.metaOf(w.e.Folders[0]), w.metaOf(w.e.Folders[1])
+	if regOf(f0) != regOf(f1) {
+		w.s.Op("meta", fmt.Sprintf("g=%s l2=%s logs=%d F0: %s F1: %s", w.gBits(), w.l2Flags(), w.logCount(), f0, f1))
+		w.s.Fail("C27/passive-differs-after-reinstate", "after ReinstateFailedDrives the passive registry is not the active one", f0+" vs "+f1)
+		w.s.Hit("reinstate_left_passive_incomplete")
+		w.dead = true
+	} else {
+		w.s.Hit("reinstate_registry_complete")
+	}
+}
+
+func (w *world) gBits() string {
+	if fs.GlobalReplicationDetails != nil {
+		return replx.Bits(*fs.GlobalReplicationDetails)
+	}
+	return "nil"
 }
 
 func (w *world) rphase(k int) {
